@@ -1,5 +1,6 @@
 pub mod rng;
 pub mod hex;
+pub mod uv;
 pub mod sexp;
 pub mod dsl;
 /// serde-reflection 0.4.0 (the version crux_core's typegen traces with) under a stable name: the `cli` binary
